@@ -1230,7 +1230,7 @@ def ite(c, a, b):
     if an.p == bn.p:
         return SNum(an.p, an.is_int and bn.is_int)
     c0 = CUR[0]
-    if c0 is not None:
+    if c0 is not None and PRUNE_ITE[0]:
         # prune by the path condition: a condition the solver already decides needs no atom
         k = ('ite?', f.get_id())
         st = c0.names.get(k)
@@ -1260,6 +1260,9 @@ def ite(c, a, b):
     if c0 is not None:
         c0.ensure([v.id])
     return SNum(Poly.var(v.id), an.is_int and bn.is_int)
+
+
+PRUNE_ITE = [True]
 
 
 def sx_min(a, b):
@@ -1305,7 +1308,7 @@ SPI = SNum(Poly.var(PI.id), False)
 
 
 def real_var(name, pos=False, nonneg=False, lo=None, hi=None, nz=False):
-    info = {}
+    info = {'lo': lo, 'hi': hi, 'nonneg': nonneg}
     if pos:
         info['pos'] = True
     if nz:
@@ -1332,6 +1335,7 @@ def real_var(name, pos=False, nonneg=False, lo=None, hi=None, nz=False):
 
 def int_var(name, lo=None, hi=None, pos=False):
     info = {'pos': True} if (pos or (lo is not None and lo > 0)) else {}
+    info['lo'], info['hi'] = lo, hi
     v = mkvar(('in', name), name, 'I', 'in', info)
     if not v.defs:
         d = []
